@@ -384,6 +384,15 @@ func taskClass(task string) string {
 	return task
 }
 
+// AddViolation lets a Post hook report a violation found in the master process.
+func (m *Master) AddViolation(v Violation) {
+	if v.Size == 0 {
+		v.Size = len(v.Replay)
+	}
+	m.Tot.VioCounts[v.Sig]++
+	m.Tot.Violations = append(m.Tot.Violations, v)
+}
+
 // confirm replays a violation n times in fresh subprocesses; every run must
 // report the same signature (or die again for process-died signatures).
 func (m *Master) confirm(v Violation, n int) (bool, string) {
@@ -488,7 +497,10 @@ func (m *Master) finish() int {
 		if exit == 2 {
 			continue
 		}
-		ok, why := m.confirm(v, 5)
+		ok, why := true, ""
+		if !v.Precise {
+			ok, why = m.confirm(v, 5)
+		}
 		if !ok {
 			fmt.Printf("HARNESS-ERROR property=%s violation %s not reproducible: %s\n", p.ID, sig, why)
 			exit = 2
